@@ -84,15 +84,47 @@ Theorem C13_dedup_den : forall (sense : desc R -> bool) surfs volus new ren volu
 Proof. exact dedup_den. Qed.
 Print Assumptions C13_dedup_den.
 
-(* refuted as a statement about the whole tail of convertMCNPGeometry: the union
-   helper planes take part in de-duplication; on these tables (a user PX 1, two
-   copies of PY 0, cell (2 -3) : -1) the default options end in KeyError where
-   --skip-deduplication writes the file.  Known finding helper_plane_dedup_merge. *)
-Theorem C13_dedup_helper_merge_refuted :
-  finish ZS false helper_surfs helper_volus 5 6 = Err EKey /\
+(* the same for any scalar (binary64): it suffices that the sense function
+   respects the implementation's equality test *)
+Theorem C13_dedup_den_any_scalar : forall T (S : Scalar T) (sense : desc T -> bool) surfs volus new ren volus',
+  (forall a b, desc_eqb S a b = true -> sense a = sense b) ->
+  NoDup (map fst surfs) ->
+  remove_duplicate_surfaces S surfs = (new, ren) ->
+  renumber_surfaces volus ren = Ok volus' ->
+  forall fuel k, vden fuel (sense_of sense new) volus' k = vden fuel (sense_of sense surfs) volus k.
+Proof. exact @dedup_den_gen. Qed.
+Print Assumptions C13_dedup_den_any_scalar.
+
+(* the union helper planes take part in de-duplication and are renumbered with
+   the other surfaces: the numbers handed to remove_empty_volumes are kept
+   surfaces, images of the original helper numbers under the renumbering *)
+Theorem C13_dedup_helpers_survive : forall T (S : Scalar T) surfs volus u0 u1 s' v' a b,
+  dedup_stage S false surfs volus u0 u1 = Ok (s', v', (a, b)) ->
+  lookup a s' <> None /\ lookup b s' <> None /\
+  In (u0, a) (snd (remove_duplicate_surfaces S surfs)) /\
+  In (u1, b) (snd (remove_duplicate_surfaces S surfs)).
+Proof. exact @dedup_helpers_survive. Qed.
+Print Assumptions C13_dedup_helpers_survive.
+
+(* hence the writer finds every surface it looks up - every table, every scalar,
+   no guard: with de-duplication the conversion never ends in the KeyError that
+   --skip-deduplication avoids (the former finding helper_plane_dedup_merge) *)
+Theorem C13_dedup_writer_finds_surfaces : forall T (S : Scalar T) surfs volus s' v' u0 u1 a b v'',
+  dedup_stage S false surfs volus u0 u1 = Ok (s', v', (a, b)) ->
+  remove_empty_volumes v' a b = Ok v'' ->
+  written_surfaces s' (remove_unused_volumes v'') <> Err EKey.
+Proof. exact @dedup_writer_finds_surfaces. Qed.
+Print Assumptions C13_dedup_writer_finds_surfaces.
+
+(* the former witness: a user PX 1, two copies of PY 0, cell (2 -3) : -1.  Helper 5
+   is merged into surface 1; the emptied volume is written with PLUS 1 MINUS 6 *)
+Example C13_example_helper_merge :
+  finish ZS false helper_surfs helper_volus 5 6 =
+    Ok ([(1, mkDesc 0%N [1] None); (2, mkDesc 1%N [0] None); (6, mkDesc 0%N [-1] None)],
+        [(6, mkVolu [] [1] None true); (1, mkVolu [1] [6] (Some (OUnion, [6])) false)],
+        [1; 6]) /\
   exists out, finish ZS true helper_surfs helper_volus 5 6 = Ok out.
-Proof. exact dedup_helper_merge_refuted. Qed.
-Print Assumptions C13_dedup_helper_merge_refuted.
+Proof. exact helper_merge_example. Qed.
 
 (* a second way in which the default options fail where --skip-deduplication
    succeeds: every volume becomes patently empty after de-duplication (the only
@@ -116,6 +148,16 @@ Theorem C13_inline_den : forall (rank : Z -> nat) (sigma : Z -> bool) fuel ti di
   (forall k, lookup k dic <> None -> cden rank sigma dic' k = cden rank sigma dic k).
 Proof. exact inline_den. Qed.
 Print Assumptions C13_inline_den.
+
+(* the same with the score computed as the code does (float division, <): for
+   every scalar and every value of --max-inline-score *)
+Theorem C13_inline_score_den : forall T (S : Scalar T) (rank : Z -> nat) (sigma : Z -> bool) fuel max_score dic dic',
+  acyclic rank dic -> inline_cells_score S fuel max_score dic = Ok dic' ->
+  acyclic rank dic' /\
+  (forall k, lookup k dic <> None <-> lookup k dic' <> None) /\
+  (forall k, lookup k dic <> None -> cden rank sigma dic' k = cden rank sigma dic k).
+Proof. exact @inline_score_den. Qed.
+Print Assumptions C13_inline_score_den.
 
 (* inlining does what the option says: afterwards no cell mentions a cell of
    to_inline (given that no geometry is a bare CellRef, as pot_fill guarantees) *)
@@ -164,7 +206,8 @@ Print Assumptions C13_fill_geometry_den.
    TRCL transformations; acyclic, keys below the counter).  (2) convertMCNPGeometry
    with or without --skip-deduplication: over whatever surface and volume tables
    the conversion built, every volume has the same denotation for the senses
-   induced by any function of the surface descriptors. *)
+   induced by any function of the surface descriptors, and so have the two helper
+   planes handed to remove_empty_volumes. *)
 Theorem C13_options_same_geometry :
   (forall fuel (o1 o2 : options) dic counter d1 c1 d2 c2,
      (forall k, lookup k dic <> None -> k <= counter) ->
@@ -175,11 +218,12 @@ Theorem C13_options_same_geometry :
      exists r1 r2, acyclic r1 d1 /\ acyclic r2 d2 /\
        forall sigma k, lookup k d1 <> None -> cden r1 sigma d1 k = cden r2 sigma d2 k)
   /\
-  (forall (sense : desc R -> bool) (o1 o2 : options) surfs volus s1 v1 s2 v2,
+  (forall (sense : desc R -> bool) (o1 o2 : options) surfs volus u0 u1 s1 v1 a1 b1 s2 v2 a2 b2,
      NoDup (map fst surfs) ->
-     dedup_stage RS (skip_dedup o1) surfs volus = Ok (s1, v1) ->
-     dedup_stage RS (skip_dedup o2) surfs volus = Ok (s2, v2) ->
-     forall fuel k, vden fuel (sense_of sense s1) v1 k = vden fuel (sense_of sense s2) v2 k).
+     dedup_stage RS (skip_dedup o1) surfs volus u0 u1 = Ok (s1, v1, (a1, b1)) ->
+     dedup_stage RS (skip_dedup o2) surfs volus u0 u1 = Ok (s2, v2, (a2, b2)) ->
+     (forall fuel k, vden fuel (sense_of sense s1) v1 k = vden fuel (sense_of sense s2) v2 k) /\
+     sense_of sense s1 a1 = sense_of sense s2 a2 /\ sense_of sense s1 b1 = sense_of sense s2 b2).
 Proof. exact options_same_geometry. Qed.
 Print Assumptions C13_options_same_geometry.
 
